@@ -16,6 +16,7 @@ var verifBadInputs = []string{
 	"%token A\n%start S\n%%\nS: A T\nT: T A\n%%\n",   // unproductive nonterminal
 	"%union {\n v int\n}\n%token <v> A\n%type <v> S\n%start S\n%%\nS: A { $$ = $9 }\n%%\n", // out-of-range $n
 	"%token <",                                       // truncated declaration
+	"%union {\n v int\n}\n%token <v> A\n%type <v> S\n%start S\n%%\nS: A { $$ = $0 }\n%%\n", // $0: no such position
 }
 
 func verifGen(ts bool, text string) (failed bool, msg string) {
